@@ -37,6 +37,10 @@ CHECKS = {
             "For each seeded scenario (operation family x reflink variant x tree x pre-populated destination) a golden run counts every seam point of the operation - filesystem mutations including mid-copy, state-database calls, remote puts - and then for EVERY k the operation is re-run from scratch in a forked process that dies with os._exit at point k (no finally/except clean-up runs, staged in-memory objects vanish); a second fresh process audits the durable state (no write-protected object mismatches its name; no hash-state row whose token matches the file vouches for a wrong hash; every valid directory object has its files), re-runs the operation and audits again (all objects valid and protected, object set equals the golden run's). Complete over crash points per scenario, sampled over scenarios.",
             "Crash = process death; no power-loss model. SQLite statements are atomic (crash points fall between statements). A working reflink is modelled as create-empty + atomic clone. The generic store class over a POSIX directory is not a target (healing belongs to LocalHashFileDB); it is covered over SimRemoteFS with atomic puts.",
             "deterministic simulation: process-death enumeration at every seam point + restart in a fresh process + audits", "DESIGN.md §5 C15"),
+    "C16": ("exploration",
+            "2-4 writers with heavily overlapping trees run build()+transfer() into one LocalHashFileDB with one shared hash-state database, as real threads (one State object) or as forked processes (optionally after setuid to an unprivileged uid, so the kernel - not a model - decides permission outcomes). A seeded controller holds a single baton: a writer runs only between two seam points (every filesystem mutation, stat/open/scandir read, state-database call, and every SQL statement issued outside a transaction) and the controller picks who proceeds next under a uniform / sticky / priority-with-change-points policy, so one seed is one exactly repeatable interleaving. Oracle: no writer raised, no TransferResult.failed, final store == union of the writers' independently computed object sets byte for byte, each writer's directory id is its model's, no hash-state row vouches for wrong content.",
+            "Pre-emption only at seam points, not arbitrary bytecodes; pool tasks inside one writer are reordered, not interleaved. Runs as root except in the uid variant.",
+            "deterministic simulation: seeded baton scheduler over real threads / forked processes at seam points", "DESIGN.md §5 C16"),
 }
 
 NA_FIXED = {
